@@ -119,7 +119,7 @@ def run(module, cfg_text, *, env=None, workers=NCPU, timeout=600, simulate=None,
         if r.error or (p.returncode != 0 and not r.violated):
             ls = [l[:300] for l in p.stdout.splitlines() if not l.startswith('"') and not l.lstrip().startswith("|")]
             i0 = next((i for i, l in enumerate(ls) if l.startswith("Error:")), max(0, len(ls) - 25))
-            tail = "\n".join(ls[i0:i0 + 40])
+            tail = "\n".join(ls[max(0, i0 - 25):i0 + 40])
             raise MachineryError(f"TLC failed on {module} (rc={p.returncode}): {r.error}\n{tail}")
         return r
 
